@@ -36,6 +36,7 @@ type memLoader struct {
 	files  map[string]string // absolute path -> text
 	loads  []string
 	failAt int // 1-based index of the load to fail (0 = none)
+	garbage bool // the failing load delivers a truncated document instead of an I/O error
 	failed bool
 }
 
@@ -53,6 +54,12 @@ func init() {
 		l.loads = append(l.loads, p)
 		if l.failAt > 0 && len(l.loads) == l.failAt {
 			l.failed = true
+			if l.garbage {
+				if t := l.files[p]; len(t) > 2 {
+					return []byte(t[:len(t)/2]), nil
+				}
+				return []byte("{"), nil
+			}
 			return nil, fmt.Errorf("open %s: injected load fault", p)
 		}
 		t, ok := l.files[p]
@@ -126,6 +133,12 @@ type flatRun struct {
 	Faulted  bool
 	Mutating []string // phases after which the document differed from the previous phase
 	Nodes    int
+	Snapshots []phaseSnap // replay mode only: the document after each mutating phase
+}
+
+type phaseSnap struct {
+	Phase string
+	Doc   string
 }
 
 func (r *flatRun) OK() bool { return r.Err == nil && r.Panic == nil }
@@ -141,6 +154,10 @@ func hashDoc(doc any) string {
 
 // runFlatten loads the root afresh, analyzes it and flattens it under the option set.
 func runFlatten(files map[string]string, root string, o optSet, failAt int, nodes int) *flatRun {
+	return runFlattenFault(files, root, o, failAt, false, nodes)
+}
+
+func runFlattenFault(files map[string]string, root string, o optSet, failAt int, garbage bool, nodes int) *flatRun {
 	r := &flatRun{Opt: o, Nodes: nodes}
 	sw, err := lib.Load([]byte(files[root]))
 	if err != nil {
@@ -148,14 +165,20 @@ func runFlatten(files map[string]string, root string, o optSet, failAt int, node
 		return r
 	}
 	r.Doc = sw
-	ld := &memLoader{files: files, failAt: failAt}
+	ld := &memLoader{files: files, failAt: failAt, garbage: garbage}
 	curLoader = ld
 	defer func() { curLoader = nil }()
 	last := ""
+	keep := os.Getenv("VERIF_DIAG") != ""
 	phaseFn := func(name string, doc any) {
 		h := hashDoc(doc)
 		if name != "0-entry" && h != last {
 			r.Mutating = append(r.Mutating, name)
+			if keep {
+				if b, err := json.Marshal(doc); err == nil {
+					r.Snapshots = append(r.Snapshots, phaseSnap{name, string(b)})
+				}
+			}
 		}
 		last = h
 	}
@@ -492,7 +515,27 @@ func (e flattenEngine) Check(prop, tier string, c *runner.Case) *runner.Result {
 				res.Nontrivial = true
 			}
 		case "C01":
+			nv := len(res.Violations)
 			e.c01(res, before, after, os_, changed)
+			if len(res.Violations) > nv && len(run.Snapshots) > 0 {
+				// diagnostic only (replay mode): the first phase after which the relation no longer holds
+				for _, sn := range run.Snapshots {
+					ff := map[string]string{}
+					for k, v := range files {
+						ff[k] = v
+					}
+					ff[root] = sn.Doc
+					if w2, err := worldOf(ff, root); err == nil {
+						d := oracle.NewAPIDiff(before, w2)
+						d.Compare(os_.RemoveUnused)
+						if len(d.Mismatches) > 0 {
+							m := d.Mismatches[0]
+							res.Violations[nv].Detail += fmt.Sprintf("\n[diagnostic] first phase after which the document no longer means the same: %s (%s at %s)", sn.Phase, m.Kind, m.Path)
+							break
+						}
+					}
+				}
+			}
 		case "C02":
 			e.c02(res, c, after, os_)
 		case "C03":
